@@ -45,6 +45,18 @@ impl C10 {
                 }
             }
         }
+        // deprecated alias of to_strict
+        {
+            let l1 = to_lax(&f.to_lax());
+            let l2 = l1.clone();
+            #[allow(deprecated)]
+            let a = lib(ctx, "to_open_hypergraph", "any", &input, move || l1.to_open_hypergraph());
+            let b = lib(ctx, "to_strict", "any", &input, move || l2.to_strict());
+            if let (Some(a), Some(b)) = (a, b) {
+                let (pa, pb) = (from_strict(&a).ok(), from_strict(&b).ok());
+                ctx.check(pa.is_some() && pa == pb, "to_open_hypergraph/same-as-to_strict/value/any", || json!({"input": input()}));
+            }
+        }
         // quotient-free lax -> strict -> lax
         let g = to_lax(&f.to_lax());
         let g2 = g.clone();
